@@ -56,3 +56,35 @@ Theorem C11_drop_forgets : forall md5 cfg fs st h st' o r c, sendrq md5 cfg fs s
   cache_entry st' c (rq_rqid r) = None.
 Proof. exact sendrq_drop_forgets. Qed.
 Print Assumptions C11_drop_forgets.
+
+(* ---- over histories.  In every state reachable from the empty one by any sequence of the six operations on the
+   request state (Proxy.hstep: request received, reply received, writer released, client queue drained, client
+   gone, server gone), under any allocation failures and with no side condition at all:
+   an occupied slot refers to a live request object that names this server and this identifier (rq->to,
+   rq->newid), hence an outstanding request occupies exactly ONE identifier of exactly ONE server -- it can neither
+   share an identifier (a slot holds one request) nor hold two. *)
+From RSP Require Import BaseLemmas Keeps_proofs Refs_proofs Tight_proofs Reg_proofs Balance_proofs Slotinv_proofs.
+Local Open Scope N_scope.
+
+Theorem C11_slot_knows_its_request : forall md5 rx cfg nclients nservers ops s i h,
+  let st := fold_left (hstep md5 rx cfg) ops (init_state nclients nservers) in
+  slot_of st s i = Some h -> exists r, get_rq st h = Some r /\ rq_to r = Some s /\ rq_newid r = i.
+Proof.
+  intros md5 rx cfg nc ns ops s i h st E.
+  assert (S : safe st zero) by (apply safe_history; apply safe_init).
+  assert (Sl : SLOT st) by (apply SLOT_history; [apply safe_init | apply SLOT_init]).
+  destruct (safe_no_dangling st S h ltac:(pose proof (slot_refs _ _ _ _ E); lia)) as (r & G & _).
+  exists r. split; [exact G | exact (Sl _ _ _ _ E G)].
+Qed.
+Print Assumptions C11_slot_knows_its_request.
+
+Theorem C11_one_identifier_per_request : forall md5 rx cfg nclients nservers ops s i s' i' h,
+  let st := fold_left (hstep md5 rx cfg) ops (init_state nclients nservers) in
+  slot_of st s i = Some h -> slot_of st s' i' = Some h -> s = s' /\ i = i'.
+Proof.
+  intros md5 rx cfg nc ns ops s i s' i' h st E1 E2.
+  destruct (C11_slot_knows_its_request md5 rx cfg nc ns ops s i h E1) as (r & G & T1 & I1).
+  destruct (C11_slot_knows_its_request md5 rx cfg nc ns ops s' i' h E2) as (r' & G' & T2 & I2).
+  fold st in G, G'. rewrite G in G'. injection G' as <-. split; congruence.
+Qed.
+Print Assumptions C11_one_identifier_per_request.
